@@ -2143,7 +2143,9 @@ pub fn set_index(
                     }
                     Ok(())
                 } else {
-                    todo!("assgn to slice")
+                    Err(NErr::type_error(
+                        "assigning to a slice is not implemented (use every)".to_string(),
+                    ))
                     // set_index(pythonic_mut(&mut Rc::make_mut(v), i)?, rest, value)
                 }
             }
